@@ -117,7 +117,11 @@ def main():
     # ---- verdict for this property
     mine = []
     for t in res["tags"]:
-        tt = [x for x in t["tags"] if x.startswith(pid + "_")]
+        # a family may declare that one of its tags is ALSO a violation of another property it serves
+        # (TAG_ALIASES = {tag: [other tags]}), e.g. a failed Ethereum tx that changed module state: C19 and C09
+        al = getattr(mods.get(t.get("family")), "TAG_ALIASES", {}) if t.get("family") in mods else {}
+        full = list(t["tags"]) + [y for x in t["tags"] for y in al.get(x, [])]
+        tt = [x for x in full if x.startswith(pid + "_")]
         if tt:
             mine.append(dict(t, tags=tt))
     drift = [t for t in res["tags"] if any(x.startswith("STRICT_") for x in t["tags"])]
